@@ -22,7 +22,9 @@ META = dict(
         "decoders use the same `<0xHH>` shape test; special tokens are prefixed with the marker byte; R4 both "
         "trie constructors end in validate() and the node bit-field packers assert their widths; R5 the two "
         "trie constructors (from / filter) agree: insertion skips empty tokens, follows the sorted order, the "
-        "offset table covers every id, and eos_tokens / sorted_vocab / info are carried over."
+        "offset table covers every id, and eos_tokens / sorted_vocab / info are carried over; R6 the builder's "
+        "child look-up structures (root fast-path cache, first_child pointer, root token) are write-once, matching "
+        "the first-match descent of every byte-navigating reader."
     ),
     not_decided=(
         "correctness of the DFS layout (pop counts, subtree sizes), greedy tokenisation, filter == rebuild — "
@@ -288,6 +290,28 @@ def run(ctx):
     g = L.guard_edges(ss, lambda e: e[0] == "bin" and e[1] == "Lt", True)
     ctx.check(bool(g), "C16-R4", "set_subtree_size:assert", "set_subtree_size asserts size < 2^(32-PARENT_BITS)",
               "set_subtree_size no longer asserts the width of the subtree size", site=ss.where())
+
+    # ------------------------------------------------------------------ R6 first-writer-wins lookup structures of the builder
+    # Readers descend through the FIRST child with a matching byte (child_at_byte, linked-list scan). The builder's two
+    # child look-ups must agree with that: the root fast-path cache and the first_child pointer are write-once.
+    TB = T + "TrieBuilder"
+    BN = T + "BuilderNode"
+    ins = ctx.body(TB + "::insert")
+    for (adt, fld, guard_fld, what) in ((TB, "root_children", (TB, "root_children"), "root fast-lookup cache"),
+                                        (BN, "first_child", (BN, "last_child"), "first-child pointer")):
+        wr = [bi for bi, (w, m, r) in P.block_effects(ins).items() if (adt, fld) in w]
+        def is_unset(e, gf=guard_fld):
+            return e[0] == "bin" and e[1] == "Eq" and L.is_field_read(gf[0], gf[1])(L.strip_wrappers(e[2])) and "NO_NODE" in repr(e[3])
+        g = L.guard_edges(ins, is_unset, True)
+        still = L.dominated_by_cut(ins, wr, g) if g else wr
+        ctx.check(bool(wr) and bool(g) and not still, "C16-R6", "write-once:%s.%s" % (adt.rsplit("::", 1)[1], fld),
+                  "the %s is set only while it is still NO_NODE (first writer wins)" % what,
+                  "TrieBuilder::insert overwrites the %s: duplicate tokens make the root cache and the sibling list disagree on which child "
+                  "continues a path, so longer tokens hang under a node that byte-navigating readers never reach" % what, site=ins.where(wr[0]) if wr else ins.where())
+    # the empty-word slot is write-once as well
+    g = L.guard_edges(ins, lambda e: e[0] == "bin" and e[1] == "Eq" and L.is_field_read(BN, "token_id")(L.strip_wrappers(e[2])) and "NO_TOKEN" in repr(e[3]), True)
+    ctx.check(bool(g), "C16-R6", "write-once:root-token", "the root token id is asserted to be unset before being assigned",
+              "TrieBuilder::insert no longer asserts that the empty word is inserted once", site=ins.where())
 
     # ------------------------------------------------------------------ R5 sibling builders agree
     fr, fl = ctx.body(TT + "::from"), ctx.body(TT + "::filter")
